@@ -156,6 +156,18 @@ def fact_constraints(fc, prog):
         v = ({}, fc[2])
         out.append(_c(l, v, 0))
         out.append(_c(v, l, 0))
+    elif fc[0] == "is" and fc[1] == "Some":
+        c = A.peel_refs(fc[2])
+        if c[0] == "call" and c[1].endswith("::next") and c[2]:
+            base = c[2][0]
+            while True:
+                base = A.peel(base)   # into_iter / iter are transparent
+                if base[0] == "call" and (base[1].endswith("Iterator::enumerate") or base[1].endswith("Iterator::rev") or base[1].endswith("Iterator::peekable")) and base[2]:
+                    base = base[2][0]
+                else:
+                    break
+            if base[0] not in ("agg", "const"):
+                out.append(_c(({}, 1), ({"len(%s)" % _atom(base): 1}, 0), 0))   # an element was yielded: 1 <= len
     elif fc[0] == "call":
         name, args, truth = fc[1], fc[2], fc[3]
         if name.endswith("::is_empty") and args:
@@ -258,74 +270,100 @@ LENGTH_FIELDS = {
 }
 
 
-def magnitude(fn, res, e, depth=0):
-    """'small' (< 2^32), 'len' (<= isize::MAX: something that is in memory), or None."""
+LEN_MAX = 2 ** 63 - 1          # anything held in memory: lengths, offsets, element counts
+TYPE_MAX = {"u8": 2 ** 8 - 1, "u16": 2 ** 16 - 1, "u32": 2 ** 32 - 1, "u64": 2 ** 64 - 1, "usize": 2 ** 64 - 1, "char": 0x10FFFF, "bool": 1}
+
+
+def ubound(fn, res, e, depth=0):
+    """a numeric upper bound of an unsigned integer expression, or None."""
     e = A.peel_refs(e)
     k = e[0]
-    if depth > 8:
+    if depth > 10:
         return None
-    if k == "const" and isinstance(e[2], int):
-        return "small" if e[2] < 2 ** 32 else None
+    if k == "const" and isinstance(e[2], int) and not isinstance(e[2], bool):
+        return e[2]
+    if k == "const" and e[1] in TYPE_MAX:
+        return TYPE_MAX[e[1]]
     if k == "cast":
         inner = A.peel_refs(e[1])
-        ty = _ty_hint(inner) or (e[3] if len(e) > 3 else None)
-        if ty in ("u8", "u16", "u32", "char", "bool") or (inner[0] == "call" and inner[1].endswith("Label::len")):
-            return "small"
-        return magnitude(fn, res, inner, depth + 1)
+        src_ty = _ty_hint(inner) or (e[3] if len(e) > 3 else None)
+        ib = ubound(fn, res, inner, depth + 1)
+        tb = TYPE_MAX.get(src_ty)
+        cands = [x for x in (ib, tb) if x is not None]
+        return min(cands) if cands else None
     if k == "call":
-        if any(e[1].endswith(s) for s in LEN_CALLS) or e[1].endswith("::capacity") or e[1].endswith("WritableBuffer::index"):
-            return "len"
-        if e[1].endswith("Label::len") or e[1].endswith("to_digit") or e[1].endswith("next_u8") or e[1].endswith("next_u16"):
-            return "small"
-        if (e[4] or e[1]).endswith("Into::into") and e[2]:
-            return magnitude(fn, res, e[2][0], depth + 1)
-        if e[1].endswith("Range<A>>::next"):
-            return "len"
-        if ((e[4] or "").endswith("Try::branch") or e[1].endswith("Option::<T>::ok_or") or e[1].endswith("::unwrap_or")) and e[2]:
-            return magnitude(fn, res, e[2][0], depth + 1)
+        n = e[1]
+        if any(n.endswith(s) for s in LEN_CALLS) or n.endswith("::capacity") or n.endswith("WritableBuffer::index") or n.endswith("Range<A>>::next"):
+            return LEN_MAX
+        if n.endswith("Label::len") or n.endswith("next_u8"):
+            return 255
+        if n.endswith("next_u16"):
+            return 65535
+        if n.endswith("next_u32"):
+            return 2 ** 32 - 1
+        if n.endswith("char>::to_digit") and len(e[2]) == 2:
+            r = A.peel(e[2][1])
+            return r[2] - 1 if r[0] == "const" and isinstance(r[2], int) else 35
+        if ((e[4] or n).endswith("Into::into") or (e[4] or "").endswith("Try::branch") or n.endswith("Option::<T>::ok_or") or n.endswith("::unwrap_or")
+                or n.endswith("From<u8>>::from") or n.endswith("From<u16>>::from") or n.endswith("From<u32>>::from")) and e[2]:
+            return ubound(fn, res, e[2][0], depth + 1)
     if k == "un" and e[1] == "PtrMetadata":
-        return "len"
+        return LEN_MAX
     if k == "field":
         if e[2] in LENGTH_FIELDS:
-            return "len"
+            return LEN_MAX
         if e[2] == "0" and A.peel_refs(e[1])[0] == "bin":
-            return magnitude(fn, res, A.peel_refs(e[1]), depth + 1)
-        if e[2] == "0" and e[1][0] == "downcast":
-            return magnitude(fn, res, e[1][1], depth + 1)
-        if e[2] in ("0", "1") and _ty_hint(e) in ("u8", "u16", "u32"):
-            return "small"
+            return ubound(fn, res, A.peel_refs(e[1]), depth + 1)
+        if e[1][0] == "downcast":
+            return ubound(fn, res, e[1][1], depth + 1)
+    if k == "downcast":
+        return ubound(fn, res, e[1], depth + 1)
     if k == "bin":
-        op = e[1].replace("WithOverflow", "")
-        a, b = magnitude(fn, res, e[2], depth + 1), magnitude(fn, res, e[3], depth + 1)
-        if op == "Add" and a and b and "small" in (a, b):
-            return "len" if "len" in (a, b) else "small2"
-        if op == "Sub" and a:
+        op = e[1].replace("WithOverflow", "").replace("Unchecked", "")
+        a, b = ubound(fn, res, e[2], depth + 1), ubound(fn, res, e[3], depth + 1)
+        if op == "Add" and a is not None and b is not None:
+            return a + b
+        if op == "Mul" and a is not None and b is not None:
+            return a * b
+        if op == "Sub" and a is not None:
             return a
-        if op in ("Mul",) and a in ("small",) and b in ("small",):
-            return "small2"
+        if op in ("BitAnd",) and (a is not None or b is not None):
+            return min(x for x in (a, b) if x is not None)
+        if op in ("Rem",) and b is not None:
+            return b
+        if op in ("Div", "Shr") and a is not None:
+            return a
     if k == "phi":
-        ms = {magnitude(fn, res, x, depth + 1) for x in e[1] if A.peel_refs(x)[0] != "loop"}
-        if ms and None not in ms:
-            return "len" if "len" in ms else "small"
+        if any(any(y[0] == "loop" for y in A.walk(x)) for x in e[1]):
+            # loop-carried accumulator over an in-memory iteration: stays in the in-memory class (stated assumption)
+            others = [ubound(fn, res, x, depth + 1) for x in e[1] if not any(y[0] == "loop" for y in A.walk(x))]
+            return LEN_MAX if None not in others else None
+        bs = [ubound(fn, res, x, depth + 1) for x in e[1]]
+        if bs and None not in bs:
+            return max(bs)
     if k == "loop":
-        return "len"
+        return LEN_MAX          # accumulator over an in-memory iteration
     if k == "param":
         ty = fn.local_ty(e[1])
-        if ty in ("u8", "u16", "u32"):
-            return "small"
-        if ty == "usize" and depth < 3:
-            # inter-procedural, one level: every production caller passes a bounded value
-            ms = set()
+        if ty in ("u8", "u16", "u32", "char", "bool"):
+            return TYPE_MAX[ty]
+        if ty == "usize" and depth < 4:
             callers = fn.prog.callers_of(fn.key)
+            bs = []
             for cf, cb, ct in callers:
                 if len(ct["args"]) >= e[1]:
                     cres = A.Resolver(cf)
-                    ms.add(magnitude(cf, cres, cres.operand(ct["args"][e[1] - 1], (cb, "term")), depth + 2))
-            if callers and None not in ms:
-                return "len" if "len" in ms else "small"
-    if k == "upvar":
-        return None
+                    bs.append(ubound(cf, cres, cres.operand(ct["args"][e[1] - 1], (cb, "term")), depth + 3))
+            if bs and None not in bs:
+                return max(bs)
     return None
+
+
+def magnitude(fn, res, e, depth=0):
+    u = ubound(fn, res, e, depth)
+    if u is None:
+        return None
+    return "small" if u < 2 ** 32 else ("len" if u <= LEN_MAX + 2 ** 33 else None)
 
 
 def _ty_hint(e):
@@ -382,11 +420,16 @@ class Discharger:
                 j = self.justify(f, res, pv, b, kind, t)
                 return j if j else (False, "subtraction %s - %s may underflow: %s" % (A.show(a)[:50], A.show(c)[:50], how))
             if "Add" in op or "Mul" in op:
-                ma, mc = magnitude(f, res, a), magnitude(f, res, c)
-                if ma and mc and not (ma == "len" and mc == "len" and False):
-                    return True, "no overflow: %s + %s (in-memory length / offset plus a < 2^32 term)" % (ma, mc)
+                ua, uc = ubound(f, res, a), ubound(f, res, c)
+                pl = A.op_place(t["cond"])
+                rty = f.local_ty(pl["l"]) if pl is not None else ""
+                tmax = TYPE_MAX.get(rty.strip("()").split(",")[0].strip())
+                if ua is not None and uc is not None and tmax is not None:
+                    tot = ua + uc if "Add" in op else ua * uc
+                    if tot <= tmax:
+                        return True, "no overflow: operands bounded by %s and %s, %s::MAX = %s" % (_b(ua), _b(uc), rty.strip("()").split(",")[0], _b(tmax))
                 j = self.justify(f, res, pv, b, kind, t)
-                return j if j else (False, "cannot bound %s (%s) and %s (%s)" % (A.show(a)[:60], ma, A.show(c)[:60], mc))
+                return j if j else (False, "cannot bound %s (%s) and %s (%s) within %s" % (A.show(a)[:60], ua, A.show(c)[:60], uc, rty))
             if "Shl" in op or "Shr" in op:
                 sh = A.peel(c) if c is not None else ("?",)
                 if sh[0] == "const" and isinstance(sh[2], int) and 0 <= sh[2] < 8:
@@ -444,6 +487,10 @@ class Discharger:
                 return ok, "insert index <= len: " + how
         j = self.justify(f, res, pv, b, kind, t)
         return j if j else (False, "no justification for %s" % A.short(t.get("callee") or "?"))
+
+
+def _b(n):
+    return "in-memory length (<= isize::MAX)" if n == LEN_MAX else ("%d" % n if n < 10 ** 7 else "2^%d-ish" % n.bit_length())
 
 
 def _show_lin(g):
